@@ -18,6 +18,7 @@ import (
 	"errors"
 	"fmt"
 	"os"
+	"runtime"
 	"sort"
 	"strconv"
 	"strings"
@@ -765,7 +766,12 @@ type c18StressEv struct {
 //   - at quiescence: the bound holds, every verdict-map key is tracked by the recency list, a clean-up
 //     leaves no entry that is older than the lifetime.
 func c18Stress(out *vlib.Out, r *vlib.Rand, rounds int) {
-	const nHosts = 36
+	const maxHosts = 256
+	// the interleavings that matter need real parallelism
+	if old := runtime.GOMAXPROCS(0); old < 8 {
+		runtime.GOMAXPROCS(8)
+		defer runtime.GOMAXPROCS(old)
+	}
 	for round := 0; round < rounds; round++ {
 		capL, capN := r.Range(1, 6), r.Range(1, 6)
 		// shapes: both LRU (mostly), one of the two an unbounded map
@@ -777,14 +783,13 @@ func c18Stress(out *vlib.Out, r *vlib.Rand, rounds int) {
 		}
 		w := newC18World(c18Conf{"1h", "1h", capL, capN})
 		clt := w.t.(*CachedLivenessTester)
-		where := fmt.Sprintf("stress capL=%d capN=%d seed=%d round=%d", capL, capN, vlib.Seed(), round)
-		var state [nHosts]atomic.Bool // the verdict a probe of the host returns right now
+		var state [maxHosts]atomic.Bool // the verdict a probe of the host returns right now
 		for h := range state {
 			state[h].Store(h%2 == 0)
 		}
 		hostName := func(h int) string { return fmt.Sprintf("10.0.%d.%d", h/9, h%9) }
 		hostIdx := map[string]int{}
-		for h := 0; h < nHosts; h++ {
+		for h := 0; h < maxHosts; h++ {
 			hostIdx[hostName(h)+":443"] = h
 		}
 		clt.phantomIsLive = func(address string) (bool, error) {
@@ -796,103 +801,27 @@ func c18Stress(out *vlib.Out, r *vlib.Rand, rounds int) {
 		// age one entry of a cache past its lifetime.  The element is replaced, not written to:
 		// lruCache.Lookup reads cachedTime after releasing the lock.
 		age := func(c cache, pick uint64) {
+			var mu *sync.RWMutex
+			var m map[string]*cacheElement
 			switch cc := c.(type) {
 			case *mapCache:
-				cc.m.Lock()
-				for k, e := range cc.ipCache {
-					if pick%3 == 0 {
-						cc.ipCache[k] = &cacheElement{cachedTime: e.cachedTime.Add(-2 * time.Hour)}
-						break
-					}
-					pick /= 3
-				}
-				cc.m.Unlock()
+				mu, m = &cc.m, cc.ipCache
 			case *lruCache:
-				cc.m.Lock()
-				for k, e := range cc.ipCache {
-					if pick%3 == 0 {
-						cc.ipCache[k] = &cacheElement{cachedTime: e.cachedTime.Add(-2 * time.Hour)}
-						break
-					}
-					pick /= 3
-				}
-				cc.m.Unlock()
+				mu, m = &cc.m, cc.ipCache
+			default:
+				return
 			}
-		}
-		var seq atomic.Int64
-		var wg sync.WaitGroup
-		const workers = 8
-		seeds := make([]uint64, workers)
-		for i := range seeds {
-			seeds[i] = r.U64()
-		}
-		logs := make([][]c18StressEv, workers)
-		for g := 0; g < workers; g++ {
-			wg.Add(1)
-			go func(g int, s uint64) {
-				defer wg.Done()
-				for i := 0; i < 1500; i++ {
-					s = s*6364136223846793005 + 1442695040888963407
-					h := int((s >> 33) % nHosts)
-					switch x := (s >> 50) % 120; {
-					case x < 3:
-						clt.ClearExpiredCache()
-						continue
-					case x < 9:
-						age(w.cache(x%2 == 0), s>>20)
-						continue
-					case x < 11 && h >= 27:
-						// only the last quarter of the hosts ever changes state
-						state[h].Store(!state[h].Load())
-						continue
-					}
-					ev := c18StressEv{host: h, qs: seq.Add(1)}
-					live, err := clt.PhantomIsLive(hostName(h), 443)
-					ev.qe = seq.Add(1)
-					ev.cached, ev.v = errors.Is(err, ErrCachedPhantom), live
-					logs[g] = append(logs[g], ev)
+			mu.Lock()
+			for k, e := range m {
+				if pick%3 == 0 {
+					m[k] = &cacheElement{cachedTime: e.cachedTime.Add(-2 * time.Hour)}
+					break
 				}
-			}(g, seeds[g])
-		}
-		wg.Wait()
-		out.Checked()
-		// ---- verdicts served during the run
-		perHost := make([][]c18StressEv, nHosts)
-		for _, l := range logs {
-			for _, e := range l {
-				perHost[e.host] = append(perHost[e.host], e)
+				pick /= 3
 			}
+			mu.Unlock()
 		}
-		for h, evs := range perHost {
-			for _, q := range evs {
-				if !q.cached {
-					continue
-				}
-				measured, lastEnd := false, int64(0)
-				for _, p := range evs {
-					if !p.cached && p.v == q.v && p.qs < q.qe {
-						measured = true
-						if p.qe > lastEnd {
-							lastEnd = p.qe
-						}
-					}
-				}
-				if !measured {
-					out.OracleFail("C18:concurrent-flipped", fmt.Sprintf("%s served %v under concurrency, no probe of it had answered %v", hostName(h), q.v, q.v), where)
-					continue
-				}
-				for _, p := range evs {
-					// a whole query (lookup, probe, store) with the other verdict that began after every
-					// measurement of q.v had been stored and that returned before q began
-					if !p.cached && p.v != q.v && p.qs > lastEnd && p.qe < q.qs {
-						out.OracleFail("C18:concurrent-flipped", fmt.Sprintf("%s served %v under concurrency after a later, completed measurement said %v", hostName(h), q.v, p.v), where)
-						break
-					}
-				}
-			}
-		}
-		// ---- quiescence
-		quiescent := func(stage string) {
+		quiescent := func(where, stage string) {
 			for _, v := range []bool{true, false} {
 				lc, isLRU := w.cache(v).(*lruCache)
 				if !isLRU {
@@ -908,17 +837,118 @@ func c18Stress(out *vlib.Out, r *vlib.Rand, rounds int) {
 				}
 			}
 		}
-		quiescent("after the run")
-		clt.ClearExpiredCache()
-		for _, v := range []bool{true, false} {
-			for k, e := range c18Elems(w.cache(v)) {
-				// aged entries are more than 2 h old, all others a few seconds: nothing is near the 1 h lifetime
-				if time.Since(e.cachedTime) > 90*time.Minute {
-					out.OracleFail("C18:expired-kept-by-cleanup:concurrent", fmt.Sprintf("verdict %v: %s is older than the lifetime after ClearExpiredCache at quiescence", v, k), where)
+		var seq atomic.Int64              // one numbering of call starts / returns for the whole round
+		perHost := make([][]c18StressEv, maxHosts) // every call of the round so far, per host
+		// two phases per round on the same tester:
+		//   churn — many distinct hosts that never change, nothing but queries: almost every query misses,
+		//           probes, stores and evicts (Add racing Add / evict callbacks);
+		//   mixed — few hosts, some of which change state, entries aged past their lifetime, clean-ups
+		//           (Lookup's refresh and expired branch, ClearExpired, Add and evict callbacks all racing).
+		for _, ph := range []struct {
+			name          string
+			nHosts, iters int
+			mixed         bool
+		}{{"churn", maxHosts, 700, false}, {"mixed", 36, 1500, true}} {
+			where := fmt.Sprintf("stress capL=%d capN=%d seed=%d round=%d phase=%s", capL, capN, vlib.Seed(), round, ph.name)
+			var wg sync.WaitGroup
+			const workers = 8
+			seeds := make([]uint64, workers)
+			for i := range seeds {
+				seeds[i] = r.U64()
+			}
+			logs := make([][]c18StressEv, workers)
+			for g := 0; g < workers; g++ {
+				wg.Add(1)
+				go func(g int, s uint64) {
+					defer wg.Done()
+					for i := 0; i < ph.iters; i++ {
+						s = s*6364136223846793005 + 1442695040888963407
+						h := int((s >> 33) % uint64(ph.nHosts))
+						if ph.mixed {
+							switch x := (s >> 50) % 120; {
+							case x < 3:
+								clt.ClearExpiredCache()
+								continue
+							case x < 9:
+								age(w.cache(x%2 == 0), s>>20)
+								continue
+							case x < 11 && h >= 27:
+								// only the last quarter of the hosts ever changes state
+								state[h].Store(!state[h].Load())
+								continue
+							}
+						}
+						ev := c18StressEv{host: h, qs: seq.Add(1)}
+						live, err := clt.PhantomIsLive(hostName(h), 443)
+						ev.qe = seq.Add(1)
+						ev.cached, ev.v = errors.Is(err, ErrCachedPhantom), live
+						logs[g] = append(logs[g], ev)
+					}
+				}(g, seeds[g])
+			}
+			wg.Wait()
+			out.Checked()
+			// ---- verdicts served during the phase
+			phaseStart := map[int]int{}
+			for h := range perHost {
+				phaseStart[h] = len(perHost[h])
+			}
+			for _, l := range logs {
+				for _, e := range l {
+					perHost[e.host] = append(perHost[e.host], e)
 				}
 			}
+			for h, evs := range perHost {
+				for _, q := range evs[phaseStart[h]:] {
+					if !q.cached {
+						continue
+					}
+					if h < 27 || h >= 36 {
+						// a host that never changes: the cached verdict is its only verdict
+						if q.v != (h%2 == 0) {
+							out.OracleFail("C18:concurrent-flipped", fmt.Sprintf("%s served %v under concurrency, the host only ever answers %v", hostName(h), q.v, h%2 == 0), where)
+						}
+						continue
+					}
+					measured, lastEnd := false, int64(0)
+					for _, p := range evs {
+						if !p.cached && p.v == q.v && p.qs < q.qe {
+							measured = true
+							if p.qe > lastEnd {
+								lastEnd = p.qe
+							}
+						}
+					}
+					if !measured {
+						out.OracleFail("C18:concurrent-flipped", fmt.Sprintf("%s served %v under concurrency, no probe of it had answered %v", hostName(h), q.v, q.v), where)
+						continue
+					}
+					for _, p := range evs {
+						// a whole query (lookup, probe, store) with the other verdict that began after every
+						// measurement of q.v had been stored and that returned before q began
+						if !p.cached && p.v != q.v && p.qs > lastEnd && p.qe < q.qs {
+							out.OracleFail("C18:concurrent-flipped", fmt.Sprintf("%s served %v under concurrency after a later, completed measurement said %v", hostName(h), q.v, p.v), where)
+							break
+						}
+					}
+				}
+			}
+			// ---- quiescence
+			quiescent(where, "after the "+ph.name+" phase")
+			if ph.mixed {
+				clt.ClearExpiredCache()
+				for _, v := range []bool{true, false} {
+					for k, e := range c18Elems(w.cache(v)) {
+						// aged entries are more than 2 h old, all others a few seconds: nothing is near the 1 h lifetime
+						if time.Since(e.cachedTime) > 90*time.Minute {
+							out.OracleFail("C18:expired-kept-by-cleanup:concurrent", fmt.Sprintf("verdict %v: %s is older than the lifetime after ClearExpiredCache at quiescence", v, k), where)
+						}
+					}
+				}
+				quiescent(where, "after the clean-up")
+			}
+			out.Count("stress:" + ph.name)
 		}
-		quiescent("after the clean-up")
 		out.Count("stress:round")
 	}
 }
